@@ -56,6 +56,7 @@ func checkC06(c *Ctx) {
 		c05Keys(c, p, m, mr)
 		c11Transitions(c, p, m)
 		c17Register(c, p, m)
+		recordLevelWrittenOnce(c, p, m, "R06.3")
 		c16Timestamp(c, p, m)
 		dedupeEquality(c, p, m, "R05.9")
 		c02Sink(c, p, m)
@@ -170,6 +171,7 @@ func c06Layout(c *Ctx, p *Prog, m *Model, mr *ModeReach) {
 	}
 	if pf := p.Method(p.Slog, "Entry", "printFirstLineOfMsg"); pf != nil {
 		okPad, okSplit := false, false
+		okPadGuard := true
 		for _, cs := range callsIn(pf) {
 			cal := calleeOf(cs)
 			if cal == nil {
@@ -181,6 +183,39 @@ func c06Layout(c *Ctx, p *Prog, m *Model, mr *ModeReach) {
 					if g, ok := globalLoad(a[len(a)-1]); ok && nm(g) == "minimalMessageWidth" {
 						okPad = true
 					}
+					// whether the padder runs does not depend on the WHOLE message (its length is not the first line's):
+					// the guards on the way test the configured width, or the first line itself
+					for _, gd := range guardsOf(cs.Block()) {
+						dep := false
+						seen := map[ssa.Value]bool{}
+						var walk func(v ssa.Value, d int)
+						walk = func(v ssa.Value, d int) {
+							if v == nil || seen[v] || d > 6 || dep {
+								return
+							}
+							seen[v] = true
+							if _, isMsg := isFieldLoadOf(strip(v), "PrintCtx", "msg"); isMsg {
+								dep = true
+								return
+							}
+							if in, ok := v.(ssa.Instruction); ok {
+								if call, isCall := v.(*ssa.Call); isCall {
+									if c2 := calleeOf(call); c2 != nil && nm(c2) == "splitFirstAndRestLines" {
+										return // the first line taken from the message
+									}
+								}
+								for _, op := range in.Operands(nil) {
+									if *op != nil {
+										walk(*op, d+1)
+									}
+								}
+							}
+						}
+						walk(gd.If.Cond, 0)
+						if dep {
+							okPadGuard = false
+						}
+					}
 				}
 			}
 			if nm(cal) == "splitFirstAndRestLines" {
@@ -190,6 +225,7 @@ func c06Layout(c *Ctx, p *Prog, m *Model, mr *ModeReach) {
 			}
 		}
 		r.Check(okPad, "R06.3", "first-line-pad", p.FuncPos(pf), "first line right-padded with spaces to minimalMessageWidth", "the first line is not right-padded with spaces to the configured minimal width")
+		r.Check(okPadGuard, "R06.3", "first-line-pad:guard", p.FuncPos(pf), "whether the first line is padded does not depend on the whole message", "whether the first line is padded depends on the whole message (its length, not the first line's): the short first line of a long multi-line message is left unpadded, so the attributes do not start at the configured column")
 		r.Check(okSplit, "R06.3", "first-line-split", p.FuncPos(pf), "the message is split into first/rest lines unconditionally for every record", "the message is not split into first and remaining lines unconditionally: remaining-lines state may belong to another record")
 	}
 	if pr := p.Method(p.Slog, "Entry", "printRestLinesOfMsg"); pr != nil {
